@@ -177,7 +177,7 @@ def main(tier):
     # ---- every grain count: the cyclic aggregates of the exact cases (harness/sizesweep.py), some copies without volume
     from harness import sizesweep
 
-    nmax = 16384 if quick else 40000
+    nmax = 16384 if quick else 32768
     sweep, table = sizesweep.run(cases, nmax, [PAR], zero_every=7, companions=True)
     for r in sweep:
         rec = dict(exc="None", finite=True, skew_e12=0, sum_e12=0, deadOK=True, linM_e12=0, linPhi_e12=0, m0OK=True, growMismatch=0, id=len(records))
